@@ -137,6 +137,14 @@ def run(ctx):
     for lst in ([{"$ref": "#/$defs/Base"}, {"required": ["label"]}], [{"$ref": "#/$defs/Base"}, {"type": "object", "required": ["label", "size"]}],
                 [{"required": ["size"]}, {"$ref": "#/$defs/Base"}]):
         sysm.append({"type": "object", "$defs": {"Base": cbase}, "properties": {"strict": {"allOf": lst}, "list": {"type": "array", "items": {"allOf": lst}}}, "required": ["strict"]})
+    # members that require a key another member declares (before / after a key of their own), by reference and inline
+    ident = {"type": "object", "properties": {"id": {"type": "string"}}}
+    for req in (["id", "name"], ["name", "id"], ["id"], ["id", "id2", "name"]):
+        named = {"type": "object", "properties": {"name": {"type": "string"}}, "required": req}
+        ident2 = {"type": "object", "properties": {"id": {"type": "string"}, "id2": {"type": "integer"}}}
+        sysm.append({"type": "object", "$defs": {"Identified": ident2, "Named": named},
+                     "properties": {"item": {"allOf": [{"$ref": "#/$defs/Identified"}, {"$ref": "#/$defs/Named"}]}, "rev": {"allOf": [{"$ref": "#/$defs/Named"}, {"$ref": "#/$defs/Identified"}]}}})
+        sysm.append({"type": "object", "properties": {"item": {"allOf": [ident2, named]}, "list": {"type": "array", "items": {"allOf": [named, ident2]}}}})
     sysm = sysm + ann
     sysm = sysm + shared + [collide_root(ob(["p"]), ob(["q"]), required=True), collide_root(ob(["p", "q"]), ob(["p"])), collide_root(ob(["q"]), ob(["p", "q"]), key="w")]
     n = 30 if ctx.tier == "quick" else 400
